@@ -46,8 +46,9 @@ def main():
             res['demo_with_change_rc'] = rc
             res['demo_output'] = out[-400:]
         for p in props:
-            rc, out = sh(f'/venv/bin/python tools/check.py {p}', cwd=VERIF, env={'REPO_DIR': wt})
+            rc, out = sh(f'/venv/bin/python tools/check.py {p}', cwd=VERIF, env={'REPO_DIR': wt, 'VERIF_SCRATCH_EVIDENCE': os.path.join(d, 'evidence')})
             lines = [l for l in out.splitlines() if l.startswith(('VIOLATION', 'OK ', 'KNOWN', 'INFRA'))]
+            lines.sort(key=lambda l: l.startswith('KNOWN'))
             res['check_' + p] = {'rc': rc, 'lines': [l[:200] for l in lines[:4]]}
         import json
         print(json.dumps(res, indent=1))
